@@ -35,10 +35,16 @@ impl SegPos {
     pub(crate) fn reversed(&self, word: &Word) -> Self {
         // NOTE: an insertion point at the end of a syllable (seg_index == len) reverses to "one before" the first
         // segment of the reversed syllable (seg_index wraps), which `increment` then moves onto that first segment
-        debug_assert!(self.syll_index < word.syllables.len() && self.seg_index <= word.syllables[self.syll_index].segments.len());
+        let mut pos = *self;
+        if pos.syll_index >= word.syllables.len() {
+            // past the last syllable is the same place as the end of the last syllable
+            pos.syll_index = word.syllables.len() - 1;
+            pos.seg_index = word.syllables[pos.syll_index].segments.len();
+        }
+        debug_assert!(pos.seg_index <= word.syllables[pos.syll_index].segments.len());
         SegPos::new(
-            word.syllables.len() - 1 - self.syll_index, 
-            (word.syllables[self.syll_index].segments.len() - 1).wrapping_sub(self.seg_index)
+            word.syllables.len() - 1 - pos.syll_index, 
+            (word.syllables[pos.syll_index].segments.len() - 1).wrapping_sub(pos.seg_index)
         )
     }
 
